@@ -16,6 +16,16 @@
 
 using namespace mustache;
 
+#ifdef KIRILLOCHNEV_MUSTACHE_VERIF
+// verification hook: schedule points. When a callback is installed it is called at every point below with
+// (point, thread id or 0, queue number: 0 = parallel queue, k+1 = serial queue k, value). It only observes.
+extern "C" { void (*mustache_verif_sched)(int point, unsigned thread, unsigned queue, unsigned value) = nullptr; }
+#define MUSTACHE_VERIF_SCHED(point, thread, queue, value) \
+    do { if (mustache_verif_sched) { mustache_verif_sched((point), (thread), (queue), (value)); } } while (false)
+#else
+#define MUSTACHE_VERIF_SCHED(point, thread, queue, value) do {} while (false)
+#endif
+
 namespace {
     enum class JobState : uint8_t {
         kParallelQueue = 0u,
@@ -87,6 +97,20 @@ struct Dispatcher::Data {
     std::atomic<bool> terminate {false}; // read by workers and wait() without the mutex
     bool single_thread_mode{false};
 
+#ifdef KIRILLOCHNEV_MUSTACHE_VERIF
+    unsigned verifQueueNumber(const JobQueue* queue) const noexcept {
+        if (queue == &parallel_jobs) {
+            return 0u;
+        }
+        for (size_t i = 0; i < extra.array.size(); ++i) {
+            if (extra.array[i].get() == queue) {
+                return static_cast<unsigned>(i + 1);
+            }
+        }
+        return ~0u;
+    }
+#endif
+
     JobQueue* findQueue() {
         MUSTACHE_PROFILER_BLOCK_LVL_3(__FUNCTION__ );
         if(parallel_jobs.isOk()) {
@@ -120,6 +144,7 @@ struct Dispatcher::Data {
         JobQueue* queue = nullptr;
         while (!terminate) {
             std::unique_lock<std::mutex> lock{ mutex };
+            MUSTACHE_VERIF_SCHED(1, thread_id.toInt(), 0u, terminate ? 1u : 0u);
 #if !DOUBLE_LOCK
             if(queue) {
                 queue->onTaskEnd();
@@ -130,20 +155,24 @@ struct Dispatcher::Data {
                 MUSTACHE_PROFILER_BLOCK_LVL_3("Wait for job");
                 while (!terminate && !queue) {
                     ++threads_waiting;
+                    MUSTACHE_VERIF_SCHED(2, thread_id.toInt(), 0u, threads_waiting.load());
                     {
                         jobs_available.wait(lock);
                     }
                     --threads_waiting;
+                    MUSTACHE_VERIF_SCHED(3, thread_id.toInt(), 0u, terminate ? 1u : 0u);
                     queue = findQueue();
                 }
             }
             if (terminate) {
+                MUSTACHE_VERIF_SCHED(6, thread_id.toInt(), 0u, 0u);
                 break;
             }
 
             auto job = std::move(queue->front());
             queue->pop();
             queue->onTaskBegin();
+            MUSTACHE_VERIF_SCHED(4, thread_id.toInt(), verifQueueNumber(queue), 0u);
             lock.unlock();
             {
                 MUSTACHE_PROFILER_BLOCK_LVL_3("Run task");
@@ -152,18 +181,22 @@ struct Dispatcher::Data {
 #if DOUBLE_LOCK
             lock.lock();
             queue->onTaskEnd();
+            MUSTACHE_VERIF_SCHED(5, thread_id.toInt(), verifQueueNumber(queue), 0u);
 #endif
         }
     }
 
     void wait(JobQueue& queue) {
         MUSTACHE_PROFILER_BLOCK_LVL_3("Wait queue");
+        MUSTACHE_VERIF_SCHED(9, 0u, verifQueueNumber(&queue), terminate ? 1u : 0u);
         while (!terminate) {
             std::unique_lock<std::mutex> lock{mutex};
             if (queue.isEmpty()) {
+                MUSTACHE_VERIF_SCHED(10, 0u, verifQueueNumber(&queue), 0u);
                 break;
             }
             if (queue.isLocked()) {
+                MUSTACHE_VERIF_SCHED(11, 0u, verifQueueNumber(&queue), 0u);
                 // a worker is running a job of this serial queue: its jobs never run concurrently, so do not help now
                 lock.unlock();
                 std::this_thread::yield();
@@ -173,6 +206,7 @@ struct Dispatcher::Data {
 
             queue.pop();
             queue.onTaskBegin();
+            MUSTACHE_VERIF_SCHED(12, 0u, verifQueueNumber(&queue), 0u);
             lock.unlock();
             {
                 MUSTACHE_PROFILER_BLOCK_LVL_3("Run task");
@@ -180,18 +214,23 @@ struct Dispatcher::Data {
             }
             lock.lock();
             queue.onTaskEnd();
+            MUSTACHE_VERIF_SCHED(13, 0u, verifQueueNumber(&queue), 0u);
         }
         {
             MUSTACHE_PROFILER_BLOCK_LVL_3("Wait other threads");
             if (queue.state == JobState::kParallelQueue) {
                 const auto num_threads = threads.size();
                 while (threads_waiting != num_threads) {
+                    MUSTACHE_VERIF_SCHED(14, 0u, 0u, 0u);
                     std::this_thread::yield();
                 }
+                MUSTACHE_VERIF_SCHED(15, 0u, 0u, static_cast<unsigned>(num_threads));
             } else {
                 while (queue.isLocked()) {
+                    MUSTACHE_VERIF_SCHED(16, 0u, verifQueueNumber(&queue), 0u);
                     std::this_thread::yield();
                 }
+                MUSTACHE_VERIF_SCHED(17, 0u, verifQueueNumber(&queue), 0u);
             }
         }
     }
@@ -223,12 +262,14 @@ Dispatcher::~Dispatcher() {
         return;
     }
     data_->terminate = true;
+    MUSTACHE_VERIF_SCHED(21, 0u, 0u, 0u);
     clear();
     data_->jobs_available.notify_all();
     for (auto& thread : data_->threads)  {
         if (thread.joinable())
             thread.join();
     }
+    MUSTACHE_VERIF_SCHED(23, 0u, 0u, 0u);
 }
 
 void Dispatcher::clear() noexcept {
@@ -236,6 +277,7 @@ void Dispatcher::clear() noexcept {
     // TODO: ?
     std::lock_guard<std::mutex> lock { data_->mutex };
     data_->parallel_jobs.clear();
+    MUSTACHE_VERIF_SCHED(22, 0u, 0u, 0u);
 }
 
 void Dispatcher::waitForParallelFinish() const noexcept {
@@ -254,6 +296,7 @@ void Dispatcher::addJob(Job&& job) {
     {
         std::unique_lock<std::mutex> lock{ data_->mutex };
         data_->parallel_jobs.push(std::move(job));
+        MUSTACHE_VERIF_SCHED(20, 0u, 0u, 0u);
     }
     data_->jobs_available.notify_one();
 }
@@ -278,6 +321,7 @@ void Dispatcher::async(QueueId queue_id, Job &&job) {
     {
         std::lock_guard<std::mutex> lock{data_->mutex};
         data_->extra.array[queue_id]->jobs.emplace(std::move(job));
+        MUSTACHE_VERIF_SCHED(20, 0u, queue_id + 1u, 0u);
     }
     data_->jobs_available.notify_one();
 }
